@@ -191,10 +191,11 @@ Fixpoint ref_shape (variants : list string) (buffered : bool) (j : json) {struct
       | Some tj =>
           match tag_name buffered variants tj with
           | Some t =>
-              if is_wrapper t then
-                Nat.leb (count_key "ofType" es) 1 &&
-                all_with_key (nullable (ref_shape variants true)) "ofType" es
-              else mem_string t variants && struct_of named_ref_check (JObj es)
+              mem_string t variants &&
+              (if is_wrapper t then
+                 Nat.leb (count_key "ofType" es) 1 &&
+                 all_with_key (nullable (ref_shape variants true)) "ofType" es
+               else struct_of named_ref_check (JObj es))
           | None => false
           end
       | None => false
@@ -202,9 +203,10 @@ Fixpoint ref_shape (variants : list string) (buffered : bool) (j : json) {struct
   | JArr (tj :: rest) =>
       match tag_name buffered variants tj with
       | Some t =>
-          if is_wrapper t then
-            match rest with [x] => nullable (ref_shape variants true) x | _ => false end
-          else mem_string t variants && struct_of named_ref_check (JArr rest)
+          mem_string t variants &&
+          (if is_wrapper t then
+             match rest with [x] => nullable (ref_shape variants true) x | _ => false end
+           else struct_of named_ref_check (JArr rest))
       | None => false
       end
   | _ => false
@@ -435,22 +437,26 @@ Proof.
   - destruct l as [|tj rest]; [reflexivity|]. cbn [decode_out_ref ref_shape].
     change out_ref_variants with out_ref_names. rewrite tag_of_name.
     destruct (tag_name bf out_ref_names tj) as [t|]; [|reflexivity].
-    unfold is_wrapper at 1. destruct (String.eqb t "LIST") eqn:E1; cbn [orb].
-    + destruct rest as [|x [|y r]]; try reflexivity. rewrite is_some_opt_map. apply opt_dec_ok.
+    unfold is_wrapper. destruct (String.eqb t "LIST") eqn:E1; cbn [orb].
+    + apply String.eqb_eq in E1. subst t. change (mem_string "LIST" out_ref_names) with true. cbn [andb].
+      destruct rest as [|x [|y r]]; try reflexivity. rewrite is_some_opt_map. apply opt_dec_ok.
       inversion IH as [|? ? _ IH2]. inversion IH2 as [|? ? Hx _]. apply Hx.
     + destruct (String.eqb t "NON_NULL") eqn:E2.
-      * destruct rest as [|x [|y r]]; try reflexivity. rewrite is_some_opt_map. apply opt_dec_ok.
+      * apply String.eqb_eq in E2. subst t. change (mem_string "NON_NULL" out_ref_names) with true. cbn [andb].
+        destruct rest as [|x [|y r]]; try reflexivity. rewrite is_some_opt_map. apply opt_dec_ok.
         inversion IH as [|? ? _ IH2]. inversion IH2 as [|? ? Hx _]. apply Hx.
       * rewrite named_variant_ok, out_named_ok; [reflexivity|]. unfold is_wrapper. rewrite E1, E2. reflexivity.
   - cbn [decode_out_ref ref_shape]. rewrite member_lookup.
     destruct (lookup_with (fun x => x) "kind" es) as [| |tj]; try reflexivity.
     change out_ref_variants with out_ref_names. rewrite tag_of_name.
     destruct (tag_name bf out_ref_names tj) as [t|]; [|reflexivity].
-    unfold is_wrapper at 1. destruct (String.eqb t "LIST") eqn:E1; cbn [orb].
-    + rewrite is_some_opt_map. apply opt_field_lookup_ok_in.
+    unfold is_wrapper. destruct (String.eqb t "LIST") eqn:E1; cbn [orb].
+    + apply String.eqb_eq in E1. subst t. change (mem_string "LIST" out_ref_names) with true. cbn [andb].
+      rewrite is_some_opt_map. apply opt_field_lookup_ok_in.
       intros kv Hkv. rewrite Forall_forall in IH. apply (IH kv Hkv).
     + destruct (String.eqb t "NON_NULL") eqn:E2.
-      * rewrite is_some_opt_map. apply opt_field_lookup_ok_in.
+      * apply String.eqb_eq in E2. subst t. change (mem_string "NON_NULL" out_ref_names) with true. cbn [andb].
+        rewrite is_some_opt_map. apply opt_field_lookup_ok_in.
         intros kv Hkv. rewrite Forall_forall in IH. apply (IH kv Hkv).
       * rewrite named_variant_ok, out_named_ok; [reflexivity|]. unfold is_wrapper. rewrite E1, E2. reflexivity.
 Qed.
@@ -462,25 +468,30 @@ Proof.
   - destruct l as [|tj rest]; [reflexivity|]. cbn [decode_in_ref ref_shape].
     change in_ref_variants with in_ref_names. rewrite tag_of_name.
     destruct (tag_name bf in_ref_names tj) as [t|]; [|reflexivity].
-    unfold is_wrapper at 1. destruct (String.eqb t "LIST") eqn:E1; cbn [orb].
-    + destruct rest as [|x [|y r]]; try reflexivity. rewrite is_some_opt_map. apply opt_dec_ok.
+    unfold is_wrapper. destruct (String.eqb t "LIST") eqn:E1; cbn [orb].
+    + apply String.eqb_eq in E1. subst t. change (mem_string "LIST" in_ref_names) with true. cbn [andb].
+      destruct rest as [|x [|y r]]; try reflexivity. rewrite is_some_opt_map. apply opt_dec_ok.
       inversion IH as [|? ? _ IH2]. inversion IH2 as [|? ? Hx _]. apply Hx.
     + destruct (String.eqb t "NON_NULL") eqn:E2.
-      * destruct rest as [|x [|y r]]; try reflexivity. rewrite is_some_opt_map. apply opt_dec_ok.
+      * apply String.eqb_eq in E2. subst t. change (mem_string "NON_NULL" in_ref_names) with true. cbn [andb].
+        destruct rest as [|x [|y r]]; try reflexivity. rewrite is_some_opt_map. apply opt_dec_ok.
         inversion IH as [|? ? _ IH2]. inversion IH2 as [|? ? Hx _]. apply Hx.
       * rewrite named_variant_ok, in_named_ok; [reflexivity|]. unfold is_wrapper. rewrite E1, E2. reflexivity.
   - cbn [decode_in_ref ref_shape]. rewrite member_lookup.
     destruct (lookup_with (fun x => x) "kind" es) as [| |tj]; try reflexivity.
     change in_ref_variants with in_ref_names. rewrite tag_of_name.
     destruct (tag_name bf in_ref_names tj) as [t|]; [|reflexivity].
-    unfold is_wrapper at 1. destruct (String.eqb t "LIST") eqn:E1; cbn [orb].
-    + rewrite is_some_opt_map. apply opt_field_lookup_ok_in.
+    unfold is_wrapper. destruct (String.eqb t "LIST") eqn:E1; cbn [orb].
+    + apply String.eqb_eq in E1. subst t. change (mem_string "LIST" in_ref_names) with true. cbn [andb].
+      rewrite is_some_opt_map. apply opt_field_lookup_ok_in.
       intros kv Hkv. rewrite Forall_forall in IH. apply (IH kv Hkv).
     + destruct (String.eqb t "NON_NULL") eqn:E2.
-      * rewrite is_some_opt_map. apply opt_field_lookup_ok_in.
+      * apply String.eqb_eq in E2. subst t. change (mem_string "NON_NULL" in_ref_names) with true. cbn [andb].
+        rewrite is_some_opt_map. apply opt_field_lookup_ok_in.
         intros kv Hkv. rewrite Forall_forall in IH. apply (IH kv Hkv).
       * rewrite named_variant_ok, in_named_ok; [reflexivity|]. unfold is_wrapper. rewrite E1, E2. reflexivity.
 Qed.
+
 #[local] Hint Resolve out_ref_ok in_ref_ok : shape.
 
 (* ---- structs ---- *)
@@ -618,3 +629,317 @@ Corollary decode_shape j q : decode_query j = Some q -> full_shape j = true.
 Proof. intro H. apply decode_iff_shape. exists q. exact H. Qed.
 Corollary not_shape_error j : full_shape j = false -> decode_query j = None.
 Proof. rewrite <- decode_is_shape. destruct (decode_query j); [discriminate|reflexivity]. Qed.
+
+(* what is written by the serialiser / the introspection result of a well-formed schema has the shape;
+   the outermost shape of spec/SpecIntrospection.v follows from the full one *)
+Corollary encode_full_shape q : query_normal q = true -> full_shape (encode_query q) = true.
+Proof. intro H. eapply decode_shape. apply roundtrip. exact H. Qed.
+Corollary render_full_shape pol s : GTS.WfSchema.wf_schema s = true -> full_shape (render pol s) = true.
+Proof. intro H. eapply decode_shape. apply lossless. exact H. Qed.
+Corollary full_shape_has_shape j : full_shape j = true -> has_shape j = true.
+Proof. intro H. apply decode_iff_shape in H. destruct H as [q H]. eapply shape. exact H. Qed.
+
+(* ================================================================ typed positions *)
+(* [at_pos t j t' j'] : inside a tree j read as a t, the subtree j' is read as a t' (the places
+   the reading of j descends into: elements of vectors, members of structs in object or positional
+   form, the variant content of tagged enums, ofType chains and named references of type
+   references; an Option member that is null is not descended into) *)
+Definition variant_members (vs : list (string * members)) (t : string) : option members :=
+  opt_map snd (find (fun v : string * members => String.eqb t (fst v)) vs).
+
+Inductive at_pos : jty -> json -> jty -> json -> Prop :=
+| pos_here t j : at_pos t j t j
+| pos_elem t l x t' j' : In x l -> at_pos t x t' j' -> at_pos (JTVec t) (JArr l) t' j'
+| pos_member ms es k pr t v t' j' :
+    In (k, (pr, t)) ms -> In (k, v) es -> (pr = Opt -> v <> JNull) ->
+    at_pos t v t' j' -> at_pos (JTStruct ms) (JObj es) t' j'
+| pos_index ms l i k pr t v t' j' :
+    nth_error ms i = Some (k, (pr, t)) -> nth_error l i = Some v -> (pr = Opt -> v <> JNull) ->
+    at_pos t v t' j' -> at_pos (JTStruct ms) (JArr l) t' j'
+| pos_variant_obj b vs es tj tag ms t' j' :
+    member "kind" es = Some tj -> tag_name b (map fst vs) tj = Some tag ->
+    variant_members vs tag = Some ms ->
+    at_pos (JTStruct ms) (JObj es) t' j' -> at_pos (JTEnum b vs) (JObj es) t' j'
+| pos_variant_arr b vs tj rest tag ms t' j' :
+    tag_name b (map fst vs) tj = Some tag -> variant_members vs tag = Some ms ->
+    at_pos (JTStruct ms) (JArr rest) t' j' -> at_pos (JTEnum b vs) (JArr (tj :: rest)) t' j'
+| pos_oftype vs b es tj tag v t' j' :
+    member "kind" es = Some tj -> tag_name b vs tj = Some tag -> is_wrapper tag = true ->
+    In ("ofType", v) es -> v <> JNull ->
+    at_pos (JTRef vs true) v t' j' -> at_pos (JTRef vs b) (JObj es) t' j'
+| pos_oftype_arr vs b tj tag v t' j' :
+    tag_name b vs tj = Some tag -> is_wrapper tag = true -> v <> JNull ->
+    at_pos (JTRef vs true) v t' j' -> at_pos (JTRef vs b) (JArr [tj; v]) t' j'
+| pos_named vs b es tj tag t' j' :
+    member "kind" es = Some tj -> tag_name b vs tj = Some tag -> is_wrapper tag = false ->
+    at_pos named_ref_ty (JObj es) t' j' -> at_pos (JTRef vs b) (JObj es) t' j'
+| pos_named_arr vs b tj rest tag t' j' :
+    tag_name b vs tj = Some tag -> is_wrapper tag = false ->
+    at_pos named_ref_ty (JArr rest) t' j' -> at_pos (JTRef vs b) (JArr (tj :: rest)) t' j'.
+
+Lemma all_with_key_In p k es v : all_with_key p k es = true -> In (k, v) es -> p v = true.
+Proof.
+  induction es as [|[k' v'] es IH]; cbn [all_with_key]; intros H Hin; [contradiction|].
+  destruct Hin as [E|Hin]; apply andb_prop in H; destruct H as [H1 H2].
+  - inversion E. subst k' v'. rewrite String.eqb_refl in H1. exact H1.
+  - apply IH; assumption.
+Qed.
+
+Lemma check_members_In k pr t (ms : members) : In (k, (pr, t)) ms -> In (k, (pr, conforms t)) (check_members ms).
+Proof. intro H. unfold check_members. apply (in_map (fun m => (fst m, (fst (snd m), conforms (snd (snd m))))) ms _ H). Qed.
+
+Lemma nullable_not_null p v : nullable p v = true -> v <> JNull -> p v = true.
+Proof. unfold nullable. destruct v; cbn [is_null orb]; intros H N; try exact H. contradiction. Qed.
+
+Lemma member_ok_pos_value pr p k v : member_ok_pos (k, (pr, p)) v = true -> (pr = Opt -> v <> JNull) -> p v = true.
+Proof.
+  destruct pr; cbn [member_ok_pos]; intros H N; [exact H|]. apply nullable_not_null; [exact H|apply N; reflexivity].
+Qed.
+
+Lemma struct_obj_member ms es k pr t v :
+  conforms (JTStruct ms) (JObj es) = true -> In (k, (pr, t)) ms -> In (k, v) es ->
+  (pr = Opt -> v <> JNull) -> conforms t v = true.
+Proof.
+  cbn [conforms struct_of]. intros H Hm He N. rewrite forallb_forall in H.
+  specialize (H _ (check_members_In _ _ _ _ Hm)). destruct pr; cbn [member_ok_obj] in H;
+    apply andb_prop in H; destruct H as [_ H]; pose proof (all_with_key_In _ _ _ _ H He) as G.
+  - exact G.
+  - apply nullable_not_null; [exact G|apply N; reflexivity].
+Qed.
+
+Lemma positional_nth cs l i c v :
+  positional cs l = true -> nth_error cs i = Some c -> nth_error l i = Some v -> member_ok_pos c v = true.
+Proof.
+  revert l i. induction cs as [|c0 cs IH]; intros l i H Hc Hv; [destruct i; discriminate|].
+  destruct l as [|v0 l]; [discriminate|]. cbn [positional] in H. apply andb_prop in H. destruct H as [H1 H2].
+  destruct i as [|i]; cbn [nth_error] in Hc, Hv.
+  - inversion Hc. inversion Hv. subst. exact H1.
+  - eapply IH; eassumption.
+Qed.
+
+Lemma struct_arr_member ms l i k pr t v :
+  conforms (JTStruct ms) (JArr l) = true -> nth_error ms i = Some (k, (pr, t)) -> nth_error l i = Some v ->
+  (pr = Opt -> v <> JNull) -> conforms t v = true.
+Proof.
+  cbn [conforms struct_of]. intros H Hm Hv N. apply andb_prop in H. destruct H as [_ H].
+  assert (Hc : nth_error (check_members ms) i = Some (k, (pr, conforms t))).
+  { unfold check_members. rewrite nth_error_map, Hm. reflexivity. }
+  eapply member_ok_pos_value; [eapply positional_nth; eassumption|exact N].
+Qed.
+
+Lemma find_map_variants (f : members -> json -> bool) t (vs : list (string * members)) :
+  find (fun v : variant_check => String.eqb t (fst v)) (map (fun v => (fst v, f (snd v))) vs) =
+  opt_map (fun v => (fst v, f (snd v))) (find (fun v : string * members => String.eqb t (fst v)) vs).
+Proof.
+  induction vs as [|[n ms] vs IH]; [reflexivity|]. cbn [map find fst snd].
+  destruct (String.eqb t n); [reflexivity|exact IH].
+Qed.
+
+Lemma enum_variant vs t content :
+  variant_ok (map (fun v : string * members => (fst v, struct_of (check_members (snd v)))) vs) t content =
+  match variant_members vs t with Some ms => conforms (JTStruct ms) content | None => false end.
+Proof.
+  unfold variant_ok, variant_members. rewrite (find_map_variants (fun ms => struct_of (check_members ms))).
+  destruct (find _ vs) as [[n ms]|]; reflexivity.
+Qed.
+Lemma enum_names (vs : list (string * members)) :
+  map fst (map (fun v : string * members => (fst v, struct_of (check_members (snd v)))) vs) = map fst vs.
+Proof. rewrite map_map. reflexivity. Qed.
+
+Lemma conforms_enum b vs j :
+  conforms (JTEnum b vs) j =
+  tagged_of b (map (fun v : string * members => (fst v, struct_of (check_members (snd v)))) vs) j.
+Proof. reflexivity. Qed.
+
+(* the shape holds at every position *)
+Theorem conforms_at t j t' j' : at_pos t j t' j' -> conforms t j = true -> conforms t' j' = true.
+Proof.
+  induction 1 as [t j|t l x t' j' Hin _ IH|ms es k pr t v t' j' Hm He N _ IH|ms l i k pr t v t' j' Hm Hv N _ IH
+                 |b vs es tj tag ms t' j' Hk Ht Hv _ IH|b vs tj rest tag ms t' j' Ht Hv _ IH
+                 |vs b es tj tag v t' j' Hk Ht Hw Hin N _ IH|vs b tj tag v t' j' Ht Hw N _ IH
+                 |vs b es tj tag t' j' Hk Ht Hw _ IH|vs b tj rest tag t' j' Ht Hw _ IH]; intro H.
+  - exact H.
+  - apply IH. cbn [conforms array_of] in H. rewrite forallb_forall in H. apply H. exact Hin.
+  - apply IH. eapply struct_obj_member; eassumption.
+  - apply IH. eapply struct_arr_member; eassumption.
+  - apply IH. rewrite conforms_enum in H. unfold tagged_of in H. rewrite Hk, enum_names, Ht, enum_variant, Hv in H. exact H.
+  - apply IH. rewrite conforms_enum in H. unfold tagged_of in H. rewrite enum_names, Ht, enum_variant, Hv in H. exact H.
+  - apply IH. cbn [conforms ref_shape] in H. rewrite Hk, Ht, Hw in H. apply andb_prop in H. destruct H as [_ H].
+    apply andb_prop in H. destruct H as [_ H].
+    apply nullable_not_null; [|exact N]. eapply all_with_key_In; eassumption.
+  - apply IH. cbn [conforms ref_shape] in H. rewrite Ht, Hw in H. apply andb_prop in H. destruct H as [_ H].
+    apply nullable_not_null; [exact H|exact N].
+  - apply IH. cbn [conforms ref_shape] in H. rewrite Hk, Ht, Hw in H. apply andb_prop in H. apply H.
+  - apply IH. cbn [conforms ref_shape] in H. rewrite Ht, Hw in H. apply andb_prop in H. apply H.
+Qed.
+
+Lemma at_pos_trans t1 j1 t2 j2 t3 j3 : at_pos t1 j1 t2 j2 -> at_pos t2 j2 t3 j3 -> at_pos t1 j1 t3 j3.
+Proof.
+  induction 1; intro G;
+    [exact G|eapply pos_elem|eapply pos_member|eapply pos_index|eapply pos_variant_obj|eapply pos_variant_arr
+    |eapply pos_oftype|eapply pos_oftype_arr|eapply pos_named|eapply pos_named_arr]; eauto.
+Qed.
+
+(* a tree with a position that does not conform is an error *)
+Corollary reject_at j t' j' : at_pos query_ty j t' j' -> conforms t' j' = false -> decode_query j = None.
+Proof.
+  intros P H. apply not_shape_error. unfold full_shape. destruct (conforms query_ty j) eqn:E; [|reflexivity].
+  rewrite (conforms_at _ _ _ _ P E) in H. discriminate.
+Qed.
+
+(* ================================================================ the five kinds of rejection *)
+Lemma count_key_app k es1 es2 : count_key k (es1 ++ es2)%list = count_key k es1 + count_key k es2.
+Proof. unfold count_key. rewrite filter_app, app_length. reflexivity. Qed.
+Lemma count_key_cons_same k v es : count_key k ((k, v) :: es) = S (count_key k es).
+Proof. unfold count_key. cbn [filter fst]. rewrite String.eqb_refl. reflexivity. Qed.
+Lemma count_key_twice k es1 v1 es2 v2 es3 :
+  2 <= count_key k (es1 ++ (k, v1) :: es2 ++ (k, v2) :: es3)%list.
+Proof. rewrite count_key_app, count_key_cons_same, count_key_app, count_key_cons_same. lia. Qed.
+Lemma count_key_absent k es : has_key k es = false -> count_key k es = 0.
+Proof.
+  unfold has_key, count_key. induction es as [|[k' v] es IH]; [reflexivity|]. cbn [existsb filter fst].
+  destruct (String.eqb k k'); cbn [orb]; [discriminate|exact IH].
+Qed.
+Lemma count_key_In k v es : In (k, v) es -> 1 <= count_key k es.
+Proof.
+  intro H. apply in_split in H. destruct H as [l1 [l2 E]]. subst es. rewrite count_key_app, count_key_cons_same. lia.
+Qed.
+Lemma member_count k es : member k es = None \/ count_key k es = 1.
+Proof.
+  unfold member, count_key. destruct (filter (fun kv => String.eqb k (fst kv)) es) as [|[k1 v1] [|kv2 r]];
+    [left|right|left]; reflexivity.
+Qed.
+Lemma member_unique k es v v' : member k es = Some v -> In (k, v') es -> v' = v.
+Proof.
+  unfold member. intros H Hin.
+  assert (G : In (k, v') (filter (fun kv => String.eqb k (fst kv)) es)).
+  { apply filter_In. split; [exact Hin|]. cbn [fst]. apply String.eqb_refl. }
+  destruct (filter (fun kv => String.eqb k (fst kv)) es) as [|[k1 v1] [|kv2 r]]; try discriminate.
+  inversion H. subst v1. destruct G as [G|[]]. inversion G. reflexivity.
+Qed.
+
+Lemma struct_obj_count ms es k pr t :
+  conforms (JTStruct ms) (JObj es) = true -> In (k, (pr, t)) ms ->
+  count_key k es <= 1 /\ (pr = Req -> count_key k es = 1).
+Proof.
+  cbn [conforms struct_of]. intros H Hm. rewrite forallb_forall in H.
+  specialize (H _ (check_members_In _ _ _ _ Hm)). destruct pr; cbn [member_ok_obj] in H;
+    apply andb_prop in H; destruct H as [H _].
+  - apply Nat.eqb_eq in H. split; [lia|intros _; exact H].
+  - apply Nat.leb_le in H. split; [exact H|discriminate].
+Qed.
+
+(* the JSON type a description asks for *)
+Definition json_type_ok (t : jty) (v : json) : bool :=
+  match t, v with
+  | JTValue, _ => true
+  | JTString, JStr _ => true
+  | JTBool, JBool _ => true
+  | JTLocation, (JStr _ | JObj _) => true
+  | JTVec _, JArr _ => true
+  | (JTRef _ _ | JTStruct _ | JTEnum _ _), (JArr _ | JObj _) => true
+  | _, _ => false
+  end.
+Lemma conforms_json_type t v : conforms t v = true -> json_type_ok t v = true.
+Proof. destruct t, v; intro H; try reflexivity; cbn in H; discriminate H. Qed.
+Lemma null_not_typed t : t <> JTValue -> json_type_ok t JNull = false.
+Proof. destruct t; intro H; try reflexivity. contradiction. Qed.
+
+Section Rejections.
+  Variables (j : json) (ms : members) (es : list (string * json)).
+  (* somewhere in j, the object with members es is read as a struct with members ms *)
+  Hypothesis P : at_pos query_ty j (JTStruct ms) (JObj es).
+
+  Lemma pos_conforms : full_shape j = true -> conforms (JTStruct ms) (JObj es) = true.
+  Proof. apply conforms_at. exact P. Qed.
+
+  Ltac by_shape H :=
+    apply not_shape_error; destruct (full_shape j) eqn:F; [exfalso; pose proof (pos_conforms F) as H|reflexivity].
+
+  (* 1. a required member is missing *)
+  Theorem reject_missing k t : In (k, (Req, t)) ms -> has_key k es = false -> decode_query j = None.
+  Proof.
+    intros Hm Hk. by_shape H. destruct (struct_obj_count _ _ _ _ _ H Hm) as [_ G].
+    rewrite (count_key_absent _ _ Hk) in G. specialize (G eq_refl). discriminate.
+  Qed.
+
+  (* 3. a member has the wrong JSON type (for a required member that includes null) *)
+  Theorem reject_wrong_type k pr t v :
+    In (k, (pr, t)) ms -> In (k, v) es -> (pr = Opt -> v <> JNull) -> json_type_ok t v = false ->
+    decode_query j = None.
+  Proof.
+    intros Hm He N Hty. by_shape H. pose proof (struct_obj_member _ _ _ _ _ _ H Hm He N) as G.
+    apply conforms_json_type in G. rewrite G in Hty. discriminate.
+  Qed.
+
+  (* 2. a required member is null *)
+  Theorem reject_null k t : In (k, (Req, t)) ms -> t <> JTValue -> In (k, JNull) es -> decode_query j = None.
+  Proof.
+    intros Hm Ht He. apply (reject_wrong_type k Req t JNull Hm He); [discriminate|apply null_not_typed; exact Ht].
+  Qed.
+
+  (* 5. a known member is given twice (whatever the two values, also null) *)
+  Theorem reject_duplicate k pr t es1 v1 es2 v2 es3 :
+    In (k, (pr, t)) ms -> es = (es1 ++ (k, v1) :: es2 ++ (k, v2) :: es3)%list -> decode_query j = None.
+  Proof.
+    intros Hm E. by_shape H. destruct (struct_obj_count _ _ _ _ _ H Hm) as [G _].
+    pose proof (count_key_twice k es1 v1 es2 v2 es3) as G2. rewrite <- E in G2. lia.
+  Qed.
+End Rejections.
+
+(* 4. an unknown kind tag (tagged enum / type reference); the tag missing or given twice *)
+Theorem reject_unknown_kind j b vs es tag :
+  at_pos query_ty j (JTEnum b vs) (JObj es) -> In ("kind", JStr tag) es -> variant_members vs tag = None ->
+  decode_query j = None.
+Proof.
+  intros P Hin Hv. apply (reject_at _ _ _ P). rewrite conforms_enum. unfold tagged_of.
+  destruct (member "kind" es) as [tj|] eqn:E; [|reflexivity].
+  rewrite <- (member_unique _ _ _ _ E Hin). cbn [tag_name]. rewrite enum_variant, Hv. reflexivity.
+Qed.
+Theorem reject_unknown_kind_ref j b vs es tag :
+  at_pos query_ty j (JTRef vs b) (JObj es) -> In ("kind", JStr tag) es -> mem_string tag vs = false ->
+  decode_query j = None.
+Proof.
+  intros P Hin Hv. apply (reject_at _ _ _ P). cbn [conforms ref_shape].
+  destruct (member "kind" es) as [tj|] eqn:E; [|reflexivity].
+  rewrite <- (member_unique _ _ _ _ E Hin). cbn [tag_name]. rewrite Hv. reflexivity.
+Qed.
+Theorem reject_kind_count j t es :
+  at_pos query_ty j t (JObj es) -> (exists b vs, t = JTEnum b vs) \/ (exists vs b, t = JTRef vs b) ->
+  count_key "kind" es <> 1 -> decode_query j = None.
+Proof.
+  intros P Ht Hc. apply (reject_at _ _ _ P).
+  destruct (member_count "kind" es) as [E|E]; [|contradiction].
+  destruct Ht as [[b [vs Ht]]|[vs [b Ht]]]; subst t.
+  - rewrite conforms_enum. unfold tagged_of. rewrite E. reflexivity.
+  - cbn [conforms ref_shape]. rewrite E. reflexivity.
+Qed.
+
+(* ---- how positions are reached: an argument of a field of an OBJECT type ---- *)
+Example pos_field_argument es_q es_s tl tes fl fes al a :
+  In ("__schema", JObj es_s) es_q -> In ("types", JArr tl) es_s -> In (JObj tes) tl ->
+  member "kind" tes = Some (JStr "OBJECT") -> In ("fields", JArr fl) tes -> In (JObj fes) fl ->
+  In ("args", JArr al) fes -> In a al ->
+  at_pos query_ty (JObj es_q) (input_value_ty true) a.
+Proof.
+  intros H1 H2 H3 H4 H5 H6 H7 H8.
+  eapply pos_member; [left; reflexivity|exact H1|discriminate|].
+  eapply pos_member; [do 4 right; left; reflexivity|exact H2|discriminate|].
+  eapply pos_elem; [exact H3|].
+  eapply pos_variant_obj; [exact H4|reflexivity|reflexivity|].
+  eapply pos_member; [do 2 right; left; reflexivity|exact H5|discriminate|].
+  eapply pos_elem; [exact H6|].
+  eapply pos_member; [do 2 right; left; reflexivity|exact H7|discriminate|].
+  eapply pos_elem; [exact H8|]. apply pos_here.
+Qed.
+(* ... hence, e.g.: such an argument without a name makes the whole result an error *)
+Example reject_argument_without_name es_q es_s tl tes fl fes al aes :
+  In ("__schema", JObj es_s) es_q -> In ("types", JArr tl) es_s -> In (JObj tes) tl ->
+  member "kind" tes = Some (JStr "OBJECT") -> In ("fields", JArr fl) tes -> In (JObj fes) fl ->
+  In ("args", JArr al) fes -> In (JObj aes) al -> has_key "name" aes = false ->
+  decode_query (JObj es_q) = None.
+Proof.
+  intros H1 H2 H3 H4 H5 H6 H7 H8 H9.
+  apply (reject_missing _ _ _ (pos_field_argument _ _ _ _ _ _ _ _ H1 H2 H3 H4 H5 H6 H7 H8) "name" JTString);
+    [left; reflexivity|exact H9].
+Qed.
